@@ -510,11 +510,44 @@ def verify_grid_loop(run):
         run.add(Obl(f"{fq}/grid.digit_bounds_are_resolution_for_active_inputs[call{k}]", hy, z3.Implies(z3.And(0 <= iS, iS < n), mxv[iS] == z3.If(active(ivs[iS]), res, 0)), fn=fq, meta={"replay": RP_FLD}, qf=False))
 
 
+def verify_wrappers(run):
+    """to_string_* / to_file_* are thin entry points of write_from_scope / write_from_reader: every parameter of the entry point reaches the parameter of the same
+    name of the function it calls (read from the AST of both; positional arguments mapped through the callee's signature)"""
+    src = run.src
+    RPW = {"module": "contracts.fld_native", "func": "replay_wrappers", "kwargs": {}, "vars": {}}
+    targets = {"to_string_from_scope": "write_from_scope", "to_file_from_scope": "write_from_scope", "to_string_from_reader": "write_from_reader", "to_file_from_reader": "write_from_reader"}
+    for w, final in targets.items():
+        fq = f"exporter.FldExporter.{w}"
+        fn = src.func("exporter", f"FldExporter.{w}")
+        run.under_contract("exporter", f"FldExporter.{w}", fn)
+        params = [a.arg for a in fn.args.args if a.arg not in ("self", "path")]
+        calls = [c for c in ast.walk(fn) if isinstance(c, ast.Call) and isinstance(c.func, ast.Attribute) and isinstance(c.func.value, ast.Name) and c.func.value.id == "self"
+                 and c.func.attr in set(targets) | set(targets.values())]
+        problems = []
+        if len(calls) != 1:
+            problems.append(f"{len(calls)} calls to an export function")
+        else:
+            c = calls[0]
+            callee = src.func("exporter", f"FldExporter.{c.func.attr}")
+            cparams = [a.arg for a in callee.args.args if a.arg != "self"]
+            got = dict(zip(cparams, c.args))
+            got.update({k.arg: k.value for k in c.keywords if k.arg})
+            for p_ in params:
+                v = got.get(p_)
+                if not (isinstance(v, ast.Name) and v.id == p_):
+                    problems.append(f"parameter `{p_}` is not passed on to {c.func.attr} (receives {ast.unparse(v) if v is not None else 'nothing: the default'})")
+            if c.func.attr != final and targets.get(c.func.attr) != final:
+                problems.append(f"calls {c.func.attr}")
+        run.add(static(f"{fq}/forwards_every_argument", not problems, "; ".join(problems) if problems else f"{params} passed on to {calls[0].func.attr}", fn=fq, meta={"soft": True, "replay": RPW}))
+    run.bounded("exporter.FldExporter/entry_points_agree.runtime", "contracts.fld_native", "replay_wrappers", [dict()],
+                bound="string / file / writer entry points on an engine with 2 inputs x both scopes x values 3, 5, 16 x active variables (all, first, second); reader entry points x skip_lines 0..3: identical text")
+
+
 def build(run):
     run.assume("A-PY", "A-MSG", "A-LOG")
     plan = [("operation.Op.increment", verify_increment), ("exporter.FldExporter.write_from_scope", verify_resolution),
             ("exporter.FldExporter.write_from_scope.grid", verify_grid_loop),
-            ("exporter.FldExporter.write_from_reader", verify_reader), ("exporter.FldExporter.write", verify_format)]
+            ("exporter.FldExporter.write_from_reader", verify_reader), ("exporter.FldExporter.write", verify_format), ("exporter.FldExporter.to_*", verify_wrappers)]
     for fq, f in plan:
         try:
             f(run)
